@@ -75,6 +75,15 @@ Theorem c09_size_field_mod t : t_type t < 256 -> t_ts t < 4294967296 -> lenN (t_
   parse_tag_header (mux_tag_header t) = Ok (t_type t, lenN (t_body t) mod 16777216, t_ts t).
 Proof. exact (parse_mux_tag_header_any t). Qed.
 
+(* A one-tag file is header ++ 11 bytes ++ body ++ 4 bytes where the 11 and the 4 bytes are
+   functions of (type, timestamp, body LENGTH) only: this is what the harness's large-body
+   cases (bodies up to 2^24-1, the window where PreviousTagSize = 11 + size needs its fourth
+   byte) observe from the model; the body bytes themselves are compared in the harness *)
+Theorem c09_frame_by_length hv ha t :
+  mux hv ha [t] = mux_header hv ha ++ mux_tag_header_n (t_type t) (t_ts t) (lenN (t_body t))
+                  ++ t_body t ++ mux_tag_trailer_n (lenN (t_body t)).
+Proof. exact (mux_single hv ha t). Qed.
+
 (* the muxer writes bytes *)
 Theorem c09_mux_bytes hv ha tags :
   Forall (fun t => wf_bytes (t_body t)) tags -> wf_bytes (mux hv ha tags).
@@ -130,6 +139,7 @@ Print Assumptions c09_harness_reader.
 Print Assumptions c09_roundtrip_harness.
 Print Assumptions c09_truncated_prefix.
 Print Assumptions c09_size_field_mod.
+Print Assumptions c09_frame_by_length.
 Print Assumptions c09_mux_bytes.
 Print Assumptions flv_demux_total.
 Print Assumptions c09_demux_returns.
